@@ -1399,6 +1399,158 @@ def _stale_witness(kind, p1, attrs, p2, x, script):
     return w
 
 
+# ------------------------------------------------------------------------------------------------ input / parameter types
+
+TYPE_KINDS = ["lap", "trunc", "fold", "bdom", "bnoise", "gauss", "gaussA", "dgauss", "stair", "unif", "snap"]
+X_REALS = [2.0 ** 24, -2.0 ** 24, 2.0 ** 24 + 2, 1.5 * 2.0 ** 24, 2.0 ** 30, 2048.0, 2050.0, -4100.0, 0.0, 3.0, -5.0, 0.5, 1024.5]
+
+
+def typed_variants(x, ints_only=False):
+    """the same real number as numpy float32 / float16 / float64, numpy / python integers, 0-d array (where representable)"""
+    out = []
+    if not ints_only:
+        out.append(("np.float64", np.float64(x)))
+        with np.errstate(over="ignore"):
+            if float(np.float32(x)) == x:
+                out.append(("np.float32", np.float32(x)))
+            if abs(x) < 65000 and float(np.float16(x)) == x:
+                out.append(("np.float16", np.float16(x)))
+        out.append(("0-d array", np.array(float(x))))
+    if float(x).is_integer():
+        out += [("int", int(x)), ("np.int64", np.int64(int(x)))]
+        if abs(x) < 2 ** 31 - 64:
+            out.append(("np.int32", np.int32(int(x))))
+    return out
+
+
+def gen_type_case(kind, r):
+    x = r.choice(X_REALS)
+    eps = r.loguniform(0.5, 5.0)
+    sens = r.choice([0.1, 1.0, r.loguniform(0.01, 1.0)])
+    script = {"rs": r.chance(0.5)}
+    if kind in ("lap", "trunc", "fold", "bdom"):
+        p = {"eps": eps, "delta": r.choice([0.0, 0.1]), "sens": sens}
+        script["u"] = [r.u01() for _ in range(4 * 31 if kind == "bdom" else 4)]
+    elif kind == "bnoise":
+        p = {"eps": eps, "delta": r.uniform(0.05, 0.4), "sens": sens}
+        script["u"] = [r.u01() for _ in range(4 * 31)]
+    elif kind == "gauss":
+        p = {"eps": r.uniform(0.3, 1.0), "delta": r.uniform(0.01, 0.3), "sens": sens}
+        script["normals"] = [r.normal(), r.normal()]
+    elif kind == "gaussA":
+        p = {"eps": eps, "delta": r.uniform(0.01, 0.3), "sens": sens}
+        script["normals"] = [r.normal(), r.normal()]
+    elif kind == "dgauss":
+        p = {"eps": r.loguniform(0.3, 3.0), "delta": r.loguniform(1e-4, 0.1), "sens": r.choice([1, 2])}
+        x = float(r.choice([v for v in X_REALS if float(v).is_integer()] + [2.0 ** 31 - 70]))
+        script["u"] = [r.u01() for _ in range(400)]
+    elif kind == "stair":
+        p = {"eps": eps, "gamma": r.choice([None, r.u01()]), "sens": sens}
+        script["u"] = [r.u01(), r.u01(), r.u01()]
+        script["geom"] = [r.randint(1, 3)]
+        script["rs"] = False
+    elif kind == "unif":
+        p = {"delta": r.uniform(0.1, 0.5), "sens": sens}
+        script["u"] = [r.u01()]
+    elif kind == "snap":
+        p = {"eps": eps, "sens": r.choice([1.0, 0.5, 0.25])}
+        script["bits"] = [r.randint(0, 1), r.randint(0, 2 ** 52 - 1), r.randint(1, 2 ** 32 - 1)]
+    if kind in ("trunc", "fold", "bdom", "snap"):
+        w = r.choice([4.0, 64.0, 1024.0])
+        lo = x - w * r.choice([0.25, 0.5, 0.75])
+        p["lo"], p["hi"] = lo, lo + w
+        if kind == "bdom":
+            p["sens"] = min(p["sens"], w)
+    return {"kind": kind, "params": p, "x": x, "script": script}
+
+
+def input_type_case(tc):
+    """randomise(x as a narrow / integer numpy type; stream) − x must be the noise added to the python-float x on the same
+    stream (within one ulp of the double result).  Returns (failure description or None, number of variants compared)."""
+    kind, p, x, sc = tc["kind"], tc["params"], tc["x"], tc["script"]
+    ints = kind == "dgauss"
+    ref = run(kind, p, int(x) if ints else float(x), sc)
+    if ref is None:
+        return None, 0
+    out_r = float(ref[0])
+    n = 0
+    for label, xv in typed_variants(x, ints_only=ints):
+        try:
+            with np.errstate(all="ignore"):
+                rr = run(kind, p, xv, sc)
+        except TypeError:
+            continue                     # this spelling of the value is refused by the mechanism's own validation
+        if rr is None:
+            continue
+        n += 1
+        out_t = float(np.asarray(rr[0]).astype(np.float64))
+        if not abs(out_t - out_r) <= math.ulp(abs(out_r)):
+            return (f"randomise({xv!r} [{label}]) releases {rr[0]!r} (noise {out_t - x!r}); randomise({x!r} [python float]) on the same "
+                    f"stream releases {ref[0]!r} (noise {out_r - x!r})"), n
+    return None, n
+
+
+def param_type_case(tc, r):
+    """the same (exactly representable) parameters handed over as numpy float32 / float16: the noise actually added on a
+    given stream must not change (the calibration itself is C02's subject: cases where the calibrated `_scale` read from
+    the object differs are counted, not judged here)"""
+    kind, p, x, sc = tc["kind"], dict(tc["params"]), tc["x"], tc["script"]
+    q = {"eps": r.choice([0.5, 1.0, 2.0]), "sens": r.choice([0.25, 0.5, 1.0]), "delta": r.choice([0.125, 0.25])}
+    for k_ in q:
+        if k_ in p and not (kind == "gauss" and k_ == "eps" and q[k_] > 1) and not (kind == "dgauss" and k_ == "sens"):
+            if k_ == "delta" and kind in ("lap", "trunc", "fold", "bdom") and p["delta"] == 0.0:
+                continue
+            p[k_] = q[k_]
+    if kind == "bdom":
+        p["sens"] = min(p["sens"], p["hi"] - p["lo"])
+    ty = r.choice([np.float32, np.float16])
+    names = [k_ for k_ in ("eps", "delta", "sens", "lo", "hi") if k_ in p and not (kind == "dgauss" and k_ == "sens")]
+    with np.errstate(over="ignore"):
+        if not all(float(ty(p[k_])) == p[k_] for k_ in names):
+            ty = np.float32
+            if not all(float(ty(p[k_])) == p[k_] for k_ in names):
+                return None, "skipped"
+    pt = dict(p)
+    for k_ in r.sample(names, r.randint(1, len(names))):
+        pt[k_] = ty(p[k_])
+    xx = int(x) if kind == "dgauss" else float(x)
+    try:
+        with np.errstate(all="ignore"):
+            a, b = run(kind, p, xx, sc), run(kind, pt, xx, sc)
+    except TypeError:
+        return None, "refused"
+    if a is None or b is None:
+        return None, "skipped"
+    if kind in ("bdom", "gaussA", "dgauss", "gauss") and float(a[2]._scale) != float(b[2]._scale):
+        return None, "calibration differs (C02)"
+    oa, ob = float(a[0]), float(np.asarray(b[0]).astype(np.float64))
+    if abs(oa - ob) <= math.ulp(abs(oa) + 5e-324):
+        return None, "ok"
+    return (f"{CLASSNAME[kind]}({pt}).randomise({xx!r}) releases {b[0]!r}; with the same numbers as python floats it releases "
+            f"{a[0]!r} on the same stream"), "bad"
+
+
+def run_types(ctx):
+    r = ctx.fork("types")
+    n = ctx.budget(25, 250)
+    for kind in TYPE_KINDS:
+        rk = r.fork(kind)
+        for _ in range(n):
+            tc = gen_type_case(kind, rk)
+            bad, k = input_type_case(tc)
+            ctx.case(("input-type", kind, tc["x"], tc["script"].get("rs")))
+            ctx.count("input_type_variants_compared", k)
+            if bad:
+                ctx.violation(f"C03:{CLASSNAME[kind]}:noise-computed-in-input-dtype", f"{CLASSNAME[kind]}({tc['params']}): {bad}",
+                              {"check": "input-type", "tc": tc})
+            else:
+                ctx.trace_ok()
+            bad, what = param_type_case(tc, rk)
+            ctx.count("param_type_" + what.split(" ")[0])
+            if bad:
+                ctx.violation(f"C03:{CLASSNAME[kind]}:noise-depends-on-parameter-dtype", bad, {"check": "param-type", "what": bad})
+
+
 # ------------------------------------------------------------------------------------------------ long rejection runs
 
 def batch_sizes(n_candidates):
@@ -1733,6 +1885,7 @@ def check(ctx):
     run_live(ctx)
     run_longruns(ctx)
     run_low_acceptance(ctx)
+    run_types(ctx)
     run_bingham(ctx)
     run_stats(ctx)
 
@@ -1742,6 +1895,8 @@ def replay(ctx, data):
     if d.get("check") == "stat":
         res = stat_test(d["name"], d["params"], int(d["seed"]), int(d["n"]))
         return any(not rec[1] <= rec[2] for rec in res)
+    if d.get("check") == "input-type":
+        return input_type_case(d["tc"])[0] is not None
     if d.get("check") == "longrun":
         return longrun_case(d["kind"], d["params"], d["x"], int(d["N"]), int(d["seed"]), bool(d["rs"])) is not None
     if d.get("check") == "lowacc":
@@ -1794,6 +1949,20 @@ _STALE = {
                  {"bits": [1, 1234567890123, 7]}),
 }
 
-WITNESSES = {"C03:bingham:law:acceptance-inverted": _witness_bingham}
+def _dtype_witness(kind, p, x, script):
+    def w(ctx):
+        bad, _ = input_type_case({"kind": kind, "params": p, "x": x, "script": script})
+        return bad is not None, (f"{CLASSNAME[kind]}({p}): {bad}" if bad else "")
+    return w
+
+
+WITNESSES = {"C03:bingham:law:acceptance-inverted": _witness_bingham,
+             "C03:Staircase:noise-computed-in-input-dtype": _dtype_witness(
+                 "stair", {"eps": 1.0, "gamma": None, "sens": 0.1}, 2.0 ** 24, {"u": [0.75, 0.5, 0.25], "geom": [2]}),
+             "C03:Uniform:noise-computed-in-input-dtype": _dtype_witness(
+                 "unif", {"delta": 0.25, "sens": 0.1}, 2.0 ** 24, {"u": [0.875]}),
+             "C03:Snapping:noise-computed-in-input-dtype": _dtype_witness(
+                 "snap", {"eps": 1.0, "sens": 1.0, "lo": 2.0 ** 30 - 16, "hi": 2.0 ** 30 + 48}, 2.0 ** 30,
+                 {"bits": [1, 1234567890123, 7]})}
 for _cls, (_k, _p1, _a, _p2, _x, _sc) in _STALE.items():
     WITNESSES[f"C03:{_cls}:stale-scale-after-assignment"] = _stale_witness(_k, _p1, _a, _p2, _x, _sc)
